@@ -676,6 +676,17 @@ func (c *Client) BatchOpt(ctx context.Context, payloads []kmip.OperationPayload,
 	if int(resp.Header.BatchCount) != len(resp.BatchItem) || len(resp.BatchItem) != len(payloads) {
 		return nil, errors.New("Batch count mismatch")
 	}
+	// Check that each item answers the operation that was requested
+	for i := range resp.BatchItem {
+		bi := &resp.BatchItem[i]
+		want := payloads[i].Operation()
+		if bi.Operation != 0 && bi.Operation != want {
+			return nil, fmt.Errorf("Unexpected operation %s in response batch item %d", ttlv.EnumStr(bi.Operation), i)
+		}
+		if bi.ResponsePayload != nil && bi.ResponsePayload.Operation() != want {
+			return nil, fmt.Errorf("Unexpected payload of operation %s in response batch item %d", ttlv.EnumStr(bi.ResponsePayload.Operation()), i)
+		}
+	}
 	return resp.BatchItem, nil
 }
 
